@@ -21,10 +21,16 @@ _FIXED = re.compile(r'^fixed:\s+property=(C\d+)\s+(\S+)\s*(.*)$')
 def load_known(path=KNOWN_FILE):
   """Returns ({(prop, key): text}, [(prop, commit, text)])."""
   opened, fixed = {}, []
-  if not os.path.exists(path):
-    return opened, fixed
-  with open(path) as f:
-    for line in f:
+  lines = []
+  # PGVERIF_KNOWN_EXTRA (development only): extra files with `open:` lines
+  # that are being triaged and not merged into KNOWN_FINDINGS.txt yet.
+  paths = [path] + [p for p in os.environ.get('PGVERIF_KNOWN_EXTRA', '').split(':') if p]
+  for p in paths:
+    if os.path.exists(p):
+      with open(p) as f:
+        lines.extend(f.read().splitlines())
+  if True:
+    for line in lines:
       line = line.rstrip('\n')
       if not line.strip() or line.lstrip().startswith('#'):
         continue
